@@ -91,3 +91,11 @@ func init() {
 		NotCovered: "sequence semantics (results of index, slice, insert, remove over operation histories); bounds handling of individual operations.",
 	}
 }
+
+func init() {
+	props["C27"] = &PropSpec{
+		Rules:      []string{"cover/deepcopy", "repl/snapshot-restore"},
+		Decides:    "the rollback half of the property (a rejected input leaves no trace) at the level of record fields: every DeepCopyEnv method of the type environment writes every field of the copy it returns (or the field is read nowhere, or it is rebuilt by the registerAsChild protocol), and the checker's REPL entry point stores back every snapshot it took, on every path, when the input is rejected.",
+		NotCovered: "that the deep copies are deep enough (aliasing between the live environment and the snapshot through shared maps or slices), the VM side of a session (persistent stack, globals after a runtime error), and equality of incremental and batch output in general: relations over input histories.",
+	}
+}
